@@ -61,6 +61,10 @@ func verifH_C13_flusher() {
 				return err
 			},
 			apply: func(db *verifDB) {}}
+	case 7:
+		// one INSERT of many rows (bulk=n, default 130): a long statement with hundreds of page changes before its log append
+		t := db.tables[0]
+		stmt = verifConcreteInsert(t, 1000, verifParam("bulk", 130))
 	case 6:
 		// a join: the second table is fetched long after the statement took the lock
 		t, u := db.tables[0], db.tables[len(db.tables)-1]
